@@ -198,9 +198,46 @@ func c13SameNamedTypes(b *core.B) {
 	}
 }
 
+// c13MadeInTheTemplate: values that a template makes while it runs (iterators) are new
+// objects in every execution; nothing about their identity may reach output or error text.
+func c13MadeInTheTemplate(b *core.B) {
+	for _, t := range []string{
+		`<%= "" + [range(1, 2)] %>`, `<%= "x" + [until(3), between(1, 4)] %>`, `<%= inspect([range(1, 2)]) %>`, `<%= debug({"r": until(3)}) %>`,
+		`<%= truncate([until(2)], {}) %>`, `<% let it = range(1, 3) %><%= for (x) in [it] { %><%= "" + [x] %><% } %>`, `<%= inspect([groupBy(2, [1, 2, 3])]) %>`, `<%= "" + [fn(a) { return a }] == "" %>`,
+	} {
+		if !b.Begin("made in the template: " + t) {
+			continue
+		}
+		b.NonTrivialStr("made-in-template", t)
+		b.Count("values-made-while-executing")
+		tm, err := plush.NewTemplate(t)
+		if err != nil {
+			continue
+		}
+		var outs []string
+		pan := core.Guard(func() {
+			for i := 0; i < 4; i++ {
+				s, err := tm.Exec(plush.NewContext())
+				outs = append(outs, fmt.Sprintf("%q %v", s, err))
+			}
+		})
+		if pan != nil {
+			b.Violate(pan.Sig(), pan.Value)
+			continue
+		}
+		for _, o := range outs[1:] {
+			if o != outs[0] {
+				b.Violate("nondeterministic-output|repeated-exec|object-identity-in-text", fmt.Sprintf("first execution: %s; later execution: %s", outs[0], o))
+				break
+			}
+		}
+	}
+}
+
 func c13Run(b *core.B) {
 	if b.Batch == 0 {
 		c13SameNamedTypes(b)
+		c13MadeInTheTemplate(b)
 	}
 	r := b.Rng(1)
 	nProg, reps := 2000, 30
